@@ -145,8 +145,14 @@ func wrapT(f func() *tinkpb.KeyTemplate) func() (*tinkpb.KeyTemplate, error) {
 var paramBases = map[string]func() (key.Parameters, error){
 	"MlDsaPrivateKey/ML_DSA_65": func() (key.Parameters, error) { return mldsa.NewParameters(mldsa.MLDSA65, mldsa.VariantTink) },
 	"MlDsaPrivateKey/ML_DSA_87": func() (key.Parameters, error) { return mldsa.NewParameters(mldsa.MLDSA87, mldsa.VariantTink) },
+	"SlhDsaPrivateKey/SLH_DSA_SHA2_128F": func() (key.Parameters, error) {
+		return slhdsa.NewParameters(slhdsa.SHA2, 64, slhdsa.FastSigning, slhdsa.VariantTink)
+	},
 	"SlhDsaPrivateKey/SLH_DSA_SHA2_128S": func() (key.Parameters, error) {
 		return slhdsa.NewParameters(slhdsa.SHA2, 64, slhdsa.SmallSignature, slhdsa.VariantTink)
+	},
+	"SlhDsaPrivateKey/SLH_DSA_SHAKE_192F": func() (key.Parameters, error) {
+		return slhdsa.NewParameters(slhdsa.SHAKE, 96, slhdsa.FastSigning, slhdsa.VariantTink)
 	},
 	"HpkePrivateKey/HPKE_P384_SHA384_AES256GCM": func() (key.Parameters, error) {
 		return hpke.NewParameters(hpke.ParametersOpts{KEMID: hpke.DHKEM_P384_HKDF_SHA384, KDFID: hpke.HKDFSHA384, AEADID: hpke.AES256GCM, Variant: hpke.VariantTink})
